@@ -49,6 +49,16 @@ def gen_plan(seed, tier):
         plan['maps'] = [{'mode': rng.choice(['serial', 'shuffled', 'reversed']), 'salt': 0}]
         plan['modes'] = ['solve', 'while']
         plan['wrapper'] = False
+    r3 = sub_rng(seed, 'plan.c09.degenerate')
+    if plan['ensemble'] == 'Lattice' and plan.get('bounds') and r3.random() < 0.15:
+        # a parameter fixed by its bounds (lower == upper): the lattice still has as many members as requested (their cells coincide
+        # along that axis)
+        b = plan['bounds']; i = r3.randrange(plan['dim'])
+        v = r3.choice([b['lo'][i], b['hi'][i]])
+        b['lo'] = list(b['lo']); b['hi'] = list(b['hi']); b['lo'][i] = v; b['hi'][i] = v
+        plan['constraint'] = None
+        if isinstance(plan['nbins'], list) and r3.random() < 0.7: plan['nbins'][i] = r3.choice([2, 2, 3])
+        plan['degenerate_axis'] = i
     r2 = sub_rng(seed, 'plan.c09.inst')
     if plan['nested_instance'] and r2.random() < 0.5:
         # the configured instance has no objective of its own: each ensemble it is handed to (one after the other, run to
@@ -167,7 +177,7 @@ def check_variant(plan, run, s, peers, e0, mspec, mode, violate, stats):
     # (3) starting points, box, constraint, penalty per member
     b = plan.get('bounds'); box = (tuple(b['lo']), tuple(b['hi'])) if b else None
     # (3a) Lattice given a number of bins: whatever layout is drawn, the members start at the centres of a grid with that many cells
-    if plan['ensemble'] == 'Lattice' and not isinstance(plan['nbins'], list) and mspec is not None and plan['nested'] != 'DE' \
+    if plan['ensemble'] == 'Lattice' and not isinstance(plan['nbins'], list) and mspec is not None and plan['nested'] != 'DE' and plan.get('degenerate_axis') is None \
        and not plan.get('constraint') and not (b and (b.get('tight') or b.get('clip') is not None)):
         firsts = []
         for i in range(n):
